@@ -408,11 +408,13 @@ func c36SessClassify(e *c36Env, v, path string, rc config.ResultCacheConfig, qs 
 	if base == "matching-row-dropped-after-decoding" {
 		base = "matching-row-missing"
 	}
-	from := -1
+	// the earlier different text with the same answer; among several, the one whose text agrees longest
+	from, fromN := -1, -1
 	for j := 0; j < at; j++ {
 		if qs[j].sql() != qs[at].sql() && c36SameAnswer(steps[j].Ans, steps[at].Ans) {
-			from = j
-			break
+			if n := c36CommonPrefix(qs[j].sql(), qs[at].sql()); n > fromN {
+				from, fromN = j, n
+			}
 		}
 	}
 	how := "answer-changed-by-earlier-queries-of-the-session"
@@ -468,7 +470,7 @@ func c36Sessions(t *testing.T, rep *vh.Report, t0 int64, deadline time.Time, rec
 	}
 	sc := c36SessCfg{sets: c36SessSets(), variants: [][]string{{"plain", "time-index"}, {"plain"}}}
 	if vh.Thorough() {
-		sc.variants = [][]string{c36AllVariants, c36AllVariants}
+		sc.variants = [][]string{c36AllVariants, {"plain"}}
 		sc.triples = true
 	}
 	heads := make([]string, len(c36SessHeads))
@@ -486,7 +488,7 @@ func c36Sessions(t *testing.T, rep *vh.Report, t0 int64, deadline time.Time, rec
 	rep.SetInfo("f4_pairs_per_set_and_variant", len(bound)*len(bound))
 	if sc.triples {
 		rep.SetInfo("f4_triple_alphabet", len(alpha.Core))
-		rep.SetInfo("f4_triples_per_set_and_variant_plain_and_time_index", len(alpha.Core)*len(alpha.Core)*len(alpha.Core))
+		rep.SetInfo("f4_triples_per_set_variant_plain", len(alpha.Core)*len(alpha.Core)*len(alpha.Core))
 	}
 	probe := c36ProbeIdx(bound)
 	rep.SetInfo("f4_probe_pairs_through_uninstrumented_server", len(probe)*len(probe))
@@ -546,7 +548,7 @@ func c36Sessions(t *testing.T, rep *vh.Report, t0 int64, deadline time.Time, rec
 			for _, a := range probe {
 				add(unit{"probe", a})
 			}
-			if sc.triples && (v == "plain" || v == "time-index") {
+			if sc.triples && v == "plain" {
 				for _, a := range alpha.Core {
 					add(unit{"triple", a})
 				}
